@@ -20,7 +20,7 @@ import TlsModel.Gen.Wrappers
                                    gen: y<v> | stop | raise    -> state and outcome
     fragment <recordSize> <hex>    payload lengths of the records _sendMsg cuts the buffer into
     alertpeek <tls13> <limit>      error path of _sendMsgThroughSocket: read on until a message, classify
-    asmdrain <gen> <gen,gen,..>    inReadEvent with its read-ahead drain loop (extra reads do <gen,..>)
+    asmdrain <op> <gen> <gen,..>   inRead/inWrite event with _doReadOp's read-ahead drain loop (extra reads do <gen,..>)
     wrappers                       the generated blocking-wrapper shape facts
 -/
 open Tls Tls.IO
@@ -248,12 +248,12 @@ def handle (st : St) (toks : List String) : St × Option String :=
       let a : ASM := { handshaker := b h, closer := b c, reader := b r, writer := b w, result := res }
       ({ st with asm := a }, some (asmStr a))
     | none => (st, none)
-  | ["asmdrain", g, pend] =>
+  | ["asmdrain", op, g, pend] =>
     match parseGen g, (if pend == "-" then some [] else (pend.splitOn ",").mapM parseGen) with
     | some g, some pend =>
-      let (a, r) := st.asm.inReadDrain g pend
-      ({ st with asm := a },
-       some s!"{asmStr a} {asmResStr r} wr={repr a.wantsReadEvent} ww={repr a.wantsWriteEvent}")
+      let r := if op == "inWrite" then st.asm.inWriteDrain g pend else st.asm.inReadDrain g pend
+      ({ st with asm := r.1 },
+       some s!"{asmStr r.1} {asmResStr r.2} wr={repr r.1.wantsReadEvent} ww={repr r.1.wantsWriteEvent}")
     | _, _ => (st, none)
   | ["asm", op, g] =>
     match parseOp op, parseGen g with
